@@ -286,14 +286,16 @@ def gen_router_cases(rng, n, stops):
                          rng.random() < 0.6, rng.random() < 0.3))
         stop = stops[k % len(stops)]
         cases.append({"id": k + 1, "plan": plan, "threads": rng.randint(1, 8), "stop": stop, "nshut": rng.randint(1, 4), "late": rng.randint(0, 3) if stop == "shutdown" else 0,
-                      "wave2": rng.choice([0, 1, 3]) if r else 0, "slowdrop": rng.choice([0, 300, 1500]) if stop == "shutdown" else 0})
+                      "wave2": rng.choice([0, 1, 3]) if r else 0, "slowdrop": rng.choice([0, 300, 1500]) if stop == "shutdown" else 0,
+                      # the last proxy handle owned by a route's callback (released on the router thread when that route closes)
+                      "owned": stop == "proxydrop" and k % 2 == 1})
     return cases
 
 
 def router_line(c):
-    return "id=%d plan=%s threads=%d stop=%s nshut=%d late=%d wave2=%d slowdrop=%d" % (
+    return "id=%d plan=%s threads=%d stop=%s nshut=%d late=%d wave2=%d slowdrop=%d%s" % (
         c["id"], ";".join("%d,%d,%d,%s" % (b, a, 1 if d else 0, "x" if x else "c") for b, a, d, x in c["plan"]) or "0,0,1,c",
-        c["threads"], c["stop"], c["nshut"], c["late"], c.get("wave2", 0), c.get("slowdrop", 0))
+        c["threads"], c["stop"], c["nshut"], c["late"], c.get("wave2", 0), c.get("slowdrop", 0), " owned=1" if c.get("owned") else "")
 
 
 def router_oracle(c, rec, prop):
@@ -365,6 +367,10 @@ def router_oracle(c, rec, prop):
             if sum(1 for e in log if e[0] == "drop" and e[1] == 1000 + j) != 1:
                 return "a route offered while shutdown was in progress was not dropped exactly once"
     if rec["stop"] == "proxydrop":
+        if not rec["stop_ok"]:
+            return "the proxy's last handle%s was never released" % (" (owned by a route's callback, released on the router thread)" if c.get("owned") else "")
+        if c.get("owned") and sum(1 for e in log if e[0] == "drop" and e[1] == 700) != 1:
+            return "the callback that owned the last proxy handle was not dropped exactly once"
         if any(e[0] == "call" and e[3] == 9999 for e in log):
             return "a callback was invoked after the proxy had been dropped and the router had stopped"
     return None
@@ -394,6 +400,9 @@ def router_model_term(c, rec):
         pre += ["PShutdown", "REvWake", "PAckWait"]
         stopped = "true"
     elif rec["stop"] == "proxydrop":
+        if c.get("owned"):
+            ch = nr + c.get("wave2", 0)
+            pre += ["PNewChan", "PAddRoute %d 700" % ch, "REvWake", "PHup %d" % ch, "REvClosed %d" % (ch + 1)]
         pre += ["PProxyDrop", "REvWakeClosed"]
         stopped = "true"
     log = rec["log_before_stop"] + rec["log_at_return"] + rec["log_after"]
